@@ -316,7 +316,7 @@ Claims(cls, rq) ==
       [] cls = "HTTPProtocol"   -> ~rq.tls /\ HttpShape(rq.line)
       [] cls = "HTTPSProtocol"  -> rq.tls /\ HttpShape(rq.line)
       [] cls = "SpartanProtocol" -> ~rq.tls /\ IsAscii(rq.line) /\ SpartanShape(rq.line)
-                                    /\ ("spartan" \in Fixes => ~StartsWith(Strip(rq.line), "/"))
+                                    /\ ("spartan" \in Fixes => (~StartsWith(Strip(rq.line), "/") /\ ~Contains(rq.line, "\t")))
       [] cls = "GopherPlusProtocol" -> ~rq.tls /\ GPlusShape(rq.line)
       [] cls = "SecureGopherPlusProtocol" -> rq.tls /\ GPlusShape(rq.line)
       [] cls = "GopherProtocol" -> ~rq.tls
